@@ -76,7 +76,17 @@ func genCase(t *rapid.T) Case {
 				c.Patterns = append(c.Patterns, rapid.SampledFrom([]string{"", " "}).Draw(t, "blank-pattern"))
 			}
 			if len(names) > 0 && rapid.IntRange(0, 3).Draw(t, fmt.Sprintf("pat-from-tree%d", i)) > 0 {
-				c.Patterns = append(c.Patterns, regexp.QuoteMeta(names[rapid.IntRange(0, len(names)-1).Draw(t, fmt.Sprintf("pat%d", i))]))
+				nm := names[rapid.IntRange(0, len(names)-1).Draw(t, fmt.Sprintf("pat%d", i))]
+				if r := []rune(nm); len(r) >= 3 && rapid.IntRange(0, 2).Draw(t, fmt.Sprintf("pat-part%d", i)) == 0 {
+					// a part of the name that does not begin it (the end of it, or its middle)
+					from := rapid.IntRange(1, len(r)-1).Draw(t, fmt.Sprintf("pat-from%d", i))
+					to := rapid.IntRange(from+1, len(r)).Draw(t, fmt.Sprintf("pat-to%d", i))
+					nm = string(r[from:to])
+					if strings.TrimSpace(nm) == "" {
+						nm = string(r)
+					}
+				}
+				c.Patterns = append(c.Patterns, regexp.QuoteMeta(nm))
 			} else {
 				c.Patterns = append(c.Patterns, rapid.SampledFrom([]string{"a", "b", "lnk0", "lnk1", "keep", "zz", "x"}).Draw(t, fmt.Sprintf("pat%d", i)))
 			}
@@ -241,7 +251,8 @@ func checkCase(t ev.T, test string, c Case) {
 			if strings.TrimSpace(p) == "" {
 				continue
 			}
-			res = append(res, regexp.MustCompile("^(?:"+p+")$"))
+			// (a pattern is searched for in the name, as regular expressions are: `eep` protects `keep.txt`)
+			res = append(res, regexp.MustCompile("(?:"+p+")"))
 		}
 		for rel := range before {
 			if !strings.HasPrefix(rel, "tree/") || (c.Target != "" && rel != trel && !strings.HasPrefix(rel, trel+"/")) {
